@@ -373,6 +373,7 @@ pub fn run(ctx: &RunCtx) -> i32 {
         }
     }
     let depth = if thorough { 9 } else { 7 };
+    let mut t0 = std::time::Instant::now();
     let per: Vec<_> = cfgs
         .par_iter()
         .map(|cfg| {
@@ -388,6 +389,8 @@ pub fn run(ctx: &RunCtx) -> i32 {
     // three requests in flight (replies for different requests interleave), shallower
     {
         let mut r = Report::new();
+        r.extra.insert("seconds/bfs-configs".into(), json!(t0.elapsed().as_secs_f64().round()));
+        t0 = std::time::Instant::now();
         for (t, m) in [(Transport::Unreliable { rto_ms: 100, gran_ms: 1, rm: 2, rc: 2 }, Mech::ShortTerm(None)), (Transport::Unreliable { rto_ms: 100, gran_ms: 1, rm: 2, rc: 2 }, Mech::ShortTerm(Some(true)))] {
             let cfg = Cfg { transport: t, mech: m, fingerprint: false, max_tx: 10, cred: 0, method: 1 };
             let st = bfs(&cfg, &apps, &Mon::new(3, &cfg), if thorough { 8 } else { 6 }, if thorough { 6_000_000 } else { 1_200_000 }, &mut r);
@@ -395,6 +398,8 @@ pub fn run(ctx: &RunCtx) -> i32 {
             r.transitions += st.transitions;
         }
         r.sym("three-requests");
+        r.extra.insert("seconds/three-requests".into(), json!(t0.elapsed().as_secs_f64().round()));
+        t0 = std::time::Instant::now();
         shared.merge(r);
     }
     // four requests in flight over a narrow alphabet (one acceptable and one wrongly keyed reply per request), deeper:
@@ -414,6 +419,8 @@ pub fn run(ctx: &RunCtx) -> i32 {
             r.add_extra("four_requests_states", st.states as u64);
         }
         r.sym("four-requests-narrow");
+        r.extra.insert("seconds/four-requests-narrow".into(), json!(t0.elapsed().as_secs_f64().round()));
+        t0 = std::time::Instant::now();
         shared.merge(r);
     }
     // application-supplied USERNAME / MESSAGE-INTEGRITY / MESSAGE-INTEGRITY-SHA256 (keyed by the application): whatever
@@ -442,6 +449,8 @@ pub fn run(ctx: &RunCtx) -> i32 {
             }
         }
         r.sym("application-supplied-credentials");
+        r.extra.insert("seconds/application-supplied-credentials".into(), json!(t0.elapsed().as_secs_f64().round()));
+        t0 = std::time::Instant::now();
         shared.merge(r);
     }
     // FINGERPRINT x short-term credentials: two requests over the narrow alphabet, every reply with a right, wrong and missing
@@ -459,6 +468,8 @@ pub fn run(ctx: &RunCtx) -> i32 {
             r.transitions += st.transitions;
         }
         r.sym("fingerprint-with-short-term");
+        r.extra.insert("seconds/fingerprint-with-short-term".into(), json!(t0.elapsed().as_secs_f64().round()));
+        t0 = std::time::Instant::now();
         shared.merge(r);
     }
     // many requests marked at once: N outstanding requests (40; thorough also 130), each gets a response under another
@@ -483,6 +494,8 @@ pub fn run(ctx: &RunCtx) -> i32 {
             }
         }
         r.sym("many-marked-requests");
+        r.extra.insert("seconds/many-marked-requests".into(), json!(t0.elapsed().as_secs_f64().round()));
+        t0 = std::time::Instant::now();
         shared.merge(r);
     }
     // run-to-completion with deviations on the default timing
@@ -494,6 +507,7 @@ pub fn run(ctx: &RunCtx) -> i32 {
             r.add_extra("deviation_bounded_executions", n);
         }
         r.sym("deviation-runs");
+        r.extra.insert("seconds/deviation-runs".into(), json!(t0.elapsed().as_secs_f64().round()));
         shared.merge(r);
     }
     let mut rep = shared.into_inner();
